@@ -86,3 +86,55 @@ fn f1b_from_serde_put_value_total() {
     kani::cover!(r.is_ok());
     std::mem::forget(r);
 }
+
+#[kani::proof]
+#[kani::unwind(4)]
+fn f1c_put_value_k_without_seq() {
+    let msg = internal::DHTMessage {
+        transaction_id: vec![1, 2],
+        version: None,
+        ip: None,
+        read_only: None,
+        variant: internal::DHTMessageVariant::Request(internal::DHTRequestSpecific::PutValue {
+            arguments: internal::DHTPutValueRequestArguments {
+                id: kani::any(),
+                target: kani::any(),
+                token: Box::new([1, 2, 3, 4]),
+                v: Box::new([7]),
+                k: Some(kani::any()),
+                sig: Some(kani::any()),
+                seq: None,
+                cas: kani::any(),
+                salt: None,
+            },
+        }),
+    };
+    let r = Message::from_serde_message(msg);
+    std::mem::forget(r);
+}
+
+#[kani::proof]
+#[kani::unwind(4)]
+fn f1d_put_value_presence_concrete_arrays() {
+    let msg = internal::DHTMessage {
+        transaction_id: vec![1, 2],
+        version: None,
+        ip: None,
+        read_only: kani::any(),
+        variant: internal::DHTMessageVariant::Request(internal::DHTRequestSpecific::PutValue {
+            arguments: internal::DHTPutValueRequestArguments {
+                id: [1; 20],
+                target: [2; 20],
+                token: Box::new([1, 2, 3, 4]),
+                v: Box::new([7]),
+                k: Some([3; 32]),
+                sig: Some([4; 64]),
+                seq: kani::any(),
+                cas: kani::any(),
+                salt: None,
+            },
+        }),
+    };
+    let r = Message::from_serde_message(msg);
+    std::mem::forget(r);
+}
